@@ -14,7 +14,7 @@ for id in $ids; do
   (cd $W && git apply --3way $V/seeded/$id/patch.diff >/dev/null 2>&1 && git reset -q) || { echo "$id: patch does not apply"; git -C /repo worktree remove --force $W; continue; }
   caught=""
   for c in $checks; do
-    out=$(VERIF_OUT_DIR=/tmp/mutrun/out_$id VERIF_DIR=$V ./bin/govc check $c -repo $W 2>&1); r=$?
+    out=$(VERIF_OUT_DIR=/tmp/mutrun/out_$id VERIF_DIR=$V ${GOVC:-./bin/govc} check $c -repo $W 2>&1); r=$?
     if [ $r -eq 1 ]; then caught="$caught $c($(echo "$out" | grep -c '^VIOLATION'))"; fi
     if [ $r -ge 2 ]; then caught="$caught $c(ERR)"; fi
   done
